@@ -87,6 +87,58 @@ def crate_of(path):
 ADDED = None   # when set: only lines added by a patch (their stripped text) are mutated
 
 
+DUP = False
+EARLY = False   # fifth set: an early return inserted in front of a function body, under a condition tests rarely meet
+
+
+def early_returns(sig):
+    """candidate `if cond { return x; }` lines for a one-line `fn` signature ending in `{` (best effort: many do not compile)"""
+    m = re.match(r"\s*(?:pub(?:\([a-z]+\))? )?(?:const )?fn \w+(?:<[^>]*>)?\((.*)\)\s*(?:->\s*(.+?))?\s*(?:where .*)?\{\s*$", sig)
+    if not m:
+        return []
+    params, ret = m.group(1), (m.group(2) or "").strip()
+    conds = []
+    for pm in re.finditer(r"(?:mut )?(\w+): ([^,]+)", params):
+        nm, ty = pm.group(1), pm.group(2).strip()
+        if ty in ("usize", "u64", "u32", "i64", "i32", "u8", "isize"):
+            conds += ["%s == 1" % nm, "%s == 2" % nm]
+        elif re.match(r"&(mut )?(\[|Vec<|str\b|String\b)", ty) or ty.startswith(("Vec<", "String")):
+            conds += ["%s.len() == 1" % nm, "%s.len() == 2" % nm]
+    # two parameters of one type: `if a == b` (and `self == rhs`)
+    typed = [(pm.group(1), pm.group(2).strip()) for pm in re.finditer(r"(?:mut )?(\w+): ([^,]+)", params)]
+    same = [(x, y) for i_, (x, tx) in enumerate(typed) for (y, ty_) in typed[i_ + 1:] if tx == ty_]
+    for x, y in same[:2]:
+        conds.append("%s == %s" % (x, y))
+    first = params.split(",")[0].strip()
+    if first in ("self", "mut self") and any(t_ in ("Self", "&Self") for _n, t_ in typed):
+        oth = [n_ for n_, t_ in typed if t_ in ("Self", "&Self")][0]
+        conds.append("self == %s%s" % ("*" if dict(typed)[oth] == "&Self" else "", oth))
+    elif first in ("&self", "&mut self") and any(t_ == "&Self" for _n, t_ in typed):
+        conds.append("self == %s" % [n_ for n_, t_ in typed if t_ == "&Self"][0])
+    if "self" in params.split(",")[0] and not conds:
+        conds += ["self.len() == 1", "self.size() == 1"]
+    if not ret:
+        rets = ["return;"]
+    elif ret == "bool":
+        rets = ["return false;", "return true;"]
+    elif ret.startswith("Option<"):
+        rets = ["return None;"]
+    elif ret in ("usize", "u64", "u32", "i64", "i32", "u8", "isize"):
+        rets = ["return 0;"]
+    elif ret.startswith("("):
+        rets = []
+    elif ret.startswith("Vec<"):
+        rets = ["return Vec::new();"]
+    elif ret == "String":
+        rets = ["return String::new();"]
+    else:
+        rets = ["return Default::default();"]
+        if ret == "Self" and first in ("self", "mut self"):
+            rets.append("return self;")
+        rets += ["return %s;" % n_ for n_, t_ in typed if t_ == ret][:2]
+    return ["if %s { %s }" % (c_, r_) for c_ in conds for r_ in rets]
+
+
 def mutants_of(path, only=None, ops=None):
     ops = OPS if ops is None else ops
     src = open(os.path.join(REPO, path)).read().split("\n")
@@ -97,6 +149,18 @@ def mutants_of(path, only=None, ops=None):
         st = code.strip()
         if "#[cfg(test)]" in line:
             in_test = True
+        if EARLY and not in_test and re.match(r"(pub(\([a-z]+\))? )?(const )?fn \w+", st) and (ADDED is None or st in ADDED):
+            # the signature may run over several lines (rustfmt): join them up to the line that opens the body
+            end = ln
+            sig = code.rstrip()
+            while not sig.rstrip().endswith("{") and end + 1 < len(src) and end - ln < 14 and not sig.rstrip().endswith(";"):
+                end += 1
+                sig += " " + src[end].split("//")[0].strip()
+            if sig.rstrip().endswith("{"):
+                sig1 = re.sub(r"\(\s+", "(", re.sub(r",\s*\)", ")", sig))
+                ind = line[: len(line) - len(line.lstrip())] + "    "
+                for er in early_returns(sig1):
+                    out.append((path, end, src[end], src[end] + "\n" + ind + er, "early return: " + er))
         if in_test or not st or st.startswith(("#", "use ", "pub use", "mod ", "//", "///", "debug_assert", "assert")) or re.match(r"(pub(\([a-z]+\))? )?(const |unsafe )?(fn|type|impl|trait|struct|enum)\b", st):
             continue
         if only and not re.search(only, line):
@@ -110,6 +174,9 @@ def mutants_of(path, only=None, ops=None):
                     out.append((path, ln, line, new, "%s -> %s" % (m.group(0), rep or "(removed)")))
         if SWAP_ADJ and ln + 1 < len(src) and st.endswith(";") and src[ln + 1].strip().endswith(";") and not st.startswith(("let ", "return", "break", "continue", "}")) and not src[ln + 1].strip().startswith(("let ", "return", "break", "continue", "}")) and len(line) - len(line.lstrip()) == len(src[ln + 1]) - len(src[ln + 1].lstrip()) and st != src[ln + 1].strip():
             out.append((path, ln, line, src[ln + 1], "swap-next with the following statement"))
+        # sixth set: a statement executed twice (copy-paste): a plain call statement or a compound assignment
+        if DUP and (re.match(r"^[\w\.\[\]\(\)&\*:<>, ]+\(.*\);$", st) or re.match(r"^[\w\.\[\]\*]+ (\+|-|\*|/|%|\^|\||&|<<|>>)= .*;$", st)) and not st.startswith(("let ", "return", "break", "continue", "assert", "debug_assert")):
+            out.append((path, ln, line, line + "\n" + line, "statement duplicated"))
         # statement deletion: a plain call statement
         if not DELETE:
             continue
@@ -166,13 +233,16 @@ def main():
     ap.add_argument("--only", default=None)
     ap.add_argument("--files", default=None, help="comma-separated override of the files to mutate")
     ap.add_argument("--added-by", default=None, help="a patch file: mutate only the lines it adds (REPO must be a scratch clone with the patch committed)")
-    ap.add_argument("--ops", default="base,pairs", help="comma-separated operator sets: base, pairs, deep, args")
+    ap.add_argument("--ops", default="base,pairs", help="comma-separated operator sets: base, pairs, deep, args, early, dup")
     a = ap.parse_args()
     global SWAP_ADJ, DELETE, ADDED
     if a.added_by:
         ADDED = {l[1:].split("//")[0].strip() for l in open(a.added_by) if l.startswith("+") and not l.startswith("+++")} - {""}
     sets = a.ops.split(",")
     ops = (OPS if "base" in sets else []) + (PAIR_OPS if "pairs" in sets else []) + (DEEP_OPS if "deep" in sets else []) + (ARG_OPS if "args" in sets else [])
+    global EARLY, DUP
+    EARLY = "early" in sets
+    DUP = "dup" in sets
     SWAP_ADJ = "deep" in sets
     DELETE = "base" in sets
     for j in range(a.jobs):
